@@ -34,6 +34,12 @@ def impl_eval(case):
         if data is not None:
             why = f"text with a character missing from {codec} was emitted ({case['unencodable']}) instead of being refused"
         return {'obs': [o1, 'n/a'], 'violation': why, 'tags': ['unencodable']}
+    if case.get('unconfigured'):
+        # an element the configuration in use does not define cannot be rendered: nothing may be emitted for it
+        if data is not None:
+            why = (f"a message holding {case['unconfigured']}, which the configuration does not define, was encoded "
+                   f"({len(data)} bytes) instead of being refused")
+        return {'obs': [o1, 'n/a'], 'violation': why, 'tags': ['unconfigured']}
     if case.get('overlong'):
         if data is not None:
             why = (f"a variable-length value longer than its prefix can count was emitted "
@@ -188,4 +194,23 @@ def explore(run, tier):
                 c = c01.mk(cfg, 'latin_1', 0, {'MTI': '1144', f'DE{k}': v}, {})
                 c['overlong'] = f'DE{k} with {mx + 1} characters'
                 cases.append(c)
+    # a message dict holding an element the configuration in use does not define (packaged: DE7, 8, 11, 13, ...; a
+    # smaller caller configuration: anything it leaves out)
+    undefined = [b for b in range(2, 129) if str(b) not in pkg]
+    for b in undefined[:: (4 if tier == 'quick' else 1)]:
+        for codec in codecs3[: (1 if tier == 'quick' else 3)]:
+            m, _ = iu.gen_message(rng, pkg, codec, bits=rng.sample(bits, 2), with_pds=False)
+            m[f'DE{b}'] = iu.text(rng, codec, 4, 'digits')
+            c = c01.mk('pkg', codec, b % 2, m, {})
+            c['unconfigured'] = f'DE{b}'
+            cases.append(c)
+    for gi in range(6 if tier == 'quick' else 40):
+        cfg = iu.gen_config(rng)
+        missing = [b for b in range(2, 129) if str(b) not in cfg]
+        b = rng.choice(missing)
+        m, _ = iu.gen_message(rng, cfg, 'cp500', with_pds=False)
+        m[f'DE{b}'] = 'ABC'
+        c = c01.mk(cfg, 'cp500', gi % 2, m, {})
+        c['unconfigured'] = f'DE{b}'
+        cases.append(c)
     run.correspond(__name__, cases, use_model=run.use_model, chunk=150)
